@@ -21,10 +21,11 @@ RUST_KEYWORDS = ['as', 'break', 'const', 'continue', 'crate', 'else', 'enum', 'e
 
 def run(ctx):
     rep = Report('C14')
-    tiers = [False] + ([True] if ctx['tier'] == 'thorough' else [])
-    for split in tiers:
-        d = harness_facts(split=split)
-        label = 'split' if split else 'single-file'
+    configs = [('single-file', dict())]
+    if ctx['tier'] == 'thorough':
+        configs += [('split', dict(split=True)), ('no-change-case', dict(change_case=False)), ('ignore-unused', dict(ignore_unused=True))]
+    for label, kw in configs:
+        d = harness_facts(**kw)
         man = os.path.join(d, 'gen', 'manifest.txt')
         if not os.path.exists(man):
             rep.bad('G14.a', 'G14.a|%s|harness' % label, '', 'harness produced no manifest:\n' + open(os.path.join(d, 'build.log')).read()[-2000:])
@@ -40,7 +41,7 @@ def run(ctx):
         rep.programs += len(entries)
         for e in entries:
             name, kind, path, keep, probe, ok = e
-            key = 'G14.a|%s|%s|generator' % (label, name) if split else 'G14.a|%s|generator' % name
+            key = 'G14.a|%s|generator' % name    # same key in every configuration: a known finding is about the document
             if ok == 'ok=true':
                 rep.ok('G14.a', key, 'pilota-build terminated and emitted %s (%s, %s)' % (os.path.basename(path), keep, label), path)
             else:
